@@ -420,6 +420,15 @@ func genAuthCase(r *gen.Rand, w *world) (*authCase, error) {
 				c.Set("membership", ref.S(gen.Pick(r, []string{"leave", "invite", "ban"})))
 			}
 			c.Set(variant("membership"), ref.S("join"))
+			if r.Chance(0.4) {
+				// the other way round: a join, with something that looks like a leave (or names an authoriser) behind it -
+				// a reader that went by the look-alike would ask for less state than the rules read (tenth seeding round,
+				// C09-U: StateNeededForAuth decoded through a pointer to a pointer, which the exact decoder let through)
+				c = ref.O("membership", ref.S("join"), variant("membership"), ref.S(gen.Pick(r, []string{"leave", "ban", "invite"})))
+				if r.Chance(0.5) {
+					c.Set(variant("join_authorised_via_users_server"), ref.S(gen.Pick(r, authUsers)))
+				}
+			}
 			ac.ev, err = w.build("m.room.member", strp(sender), sender, c, nil, "")
 		case 1: // thresholds / users of the room's power levels
 			pc := randPLContent(r, w.t, creators)
